@@ -335,6 +335,14 @@ def rule_MC(run: Run) -> RuleResult:
         forms[name] = got
         res.add(f"labrea.cache.MemoryCache.{name}:key-is-fingerprint", ok, f, fn.lineno,
                 f"indexes self._cache with {got}; expected [{want}]", nec)
+    ex = mc.methods.get("exists")
+    if ex is not None:
+        amap = astu.single_assign_map(ex)
+        rets = [astu.expand_locals(r.value, amap) for r in astu.walk_no_nested(ex) if isinstance(r, ast.Return) and r.value is not None]
+        ok = bool(rets) and all(isinstance(r, ast.Compare) and len(r.ops) == 1 and isinstance(r.ops[0], ast.In) and astu.is_self_attr(r.comparators[0], "_cache") for r in rets)
+        res.add("labrea.cache.MemoryCache.exists:presence is membership of the fingerprint (as in get)", ok, f, ex.lineno,
+                f"returns {[ast.unparse(r) for r in rets]}",
+                "get() serves every stored entry, whatever its value; an exists() that looks at the value (None, falsy) reports stored entries as absent and the body re-runs (C02)")
     # who may write the memo dictionary
     writers = []
     for m in repo.modules.values():
@@ -417,9 +425,34 @@ def rule_CE(run: Run) -> RuleResult:
             for k, v in zip(n.keys, n.values):
                 if isinstance(k, ast.Name) and k.id.endswith("Request") and isinstance(v, ast.Name):
                     handlers.setdefault(k.id, []).append(f"labrea.cache.{v.id}")
+    failures = sorted(c.name for c in repo.classes.values() if c.module is cache_mod and (c.name == "CacheFailure" or c.is_subclass_of("CacheFailure")))
+    if "CacheGetFailure" not in failures:
+        raise AnalysisError("CacheGetFailure not found")
+    all_may = {}
+    for exc_name in failures:
+        all_may[exc_name] = _may_raise(repo, cache_mod, fns, handlers, exc_name)
+    may, direct_sites = all_may["CacheGetFailure"]
+    raisers = sorted(q for q in may)
+    must_not = ["labrea.cache.Cached.evaluate", "labrea.cache.Cached.validate", "labrea.cache.Cache.exists",
+                "labrea.cache._set_cache_handler", "labrea.cache._exists_cache_handler",
+                "labrea.cache._disabled_set_cache_handler", "labrea.cache._disabled_exists_cache_handler"]
+    for q in must_not:
+        if q not in fns:
+            raise AnalysisError(f"anchor {q} not found")
+        bad = [(n, all_may[n][1].get(q)) for n in failures if q in all_may[n][0]]
+        res.add(f"{q}:CacheGetFailure-does-not-escape", not bad, cache_mod.relpath, fns[q].lineno,
+                "no cache failure can escape" if not bad else f"{bad[0][0]} may escape: {bad[0][1]}", nec)
+    res.count("functions", len(fns))
+    res.notes.append(f"may-raise CacheGetFailure: {raisers}")
+    if not any(q.endswith("MemoryCache.get") for q in may):
+        raise AnalysisError("R-CE: MemoryCache.get no longer raises CacheGetFailure — propagation has no source")
+    return res
+
+
+def _may_raise(repo, cache_mod, fns, handlers, exc_name):
     def catches(types: List[str]) -> bool:
         for t in types:
-            r = exc_is_subclass(repo, "CacheGetFailure", t)
+            r = exc_is_subclass(repo, exc_name, t)
             if r:
                 return True
         return False
@@ -437,7 +470,7 @@ def rule_CE(run: Run) -> RuleResult:
             for n in astu.walk_no_nested(fn):
                 if catches(guards.get(id(n), [])):
                     continue
-                if isinstance(n, ast.Raise) and n.exc is not None and "CacheGetFailure" in ast.unparse(n.exc):
+                if isinstance(n, ast.Raise) and n.exc is not None and isinstance(n.exc, ast.Call) and astu.short_name(n.exc) == exc_name:
                     hit = f"raise at line {n.lineno}"
                 elif isinstance(n, ast.Raise) and n.exc is None:
                     # bare re-raise inside a handler that caught it
@@ -466,22 +499,7 @@ def rule_CE(run: Run) -> RuleResult:
                 may.add(q)
                 direct_sites[q] = hit
                 changed = True
-    raisers = sorted(q for q in may)
-    must_not = ["labrea.cache.Cached.evaluate", "labrea.cache.Cached.validate", "labrea.cache.Cache.exists",
-                "labrea.cache._set_cache_handler", "labrea.cache._exists_cache_handler",
-                "labrea.cache._disabled_set_cache_handler", "labrea.cache._disabled_exists_cache_handler"]
-    for q in must_not:
-        if q not in fns:
-            raise AnalysisError(f"anchor {q} not found")
-        ok = q not in may
-        res.add(f"{q}:CacheGetFailure-does-not-escape", ok, cache_mod.relpath, fns[q].lineno,
-                "CacheGetFailure cannot escape" if ok else f"CacheGetFailure may escape: {direct_sites.get(q)}", nec)
-    expected_raisers = [q for q in fns if q.endswith(".get") and not q.endswith("Cache.get")] + ["labrea.cache._disabled_get_cache_handler"]
-    res.count("functions", len(fns))
-    res.notes.append(f"may-raise set: {raisers}")
-    if not any(q.endswith("MemoryCache.get") for q in may):
-        raise AnalysisError("R-CE: MemoryCache.get no longer raises CacheGetFailure — propagation has no source")
-    return res
+    return may, direct_sites
 
 
 # ------------------------------------------------------------------ R-OS
@@ -622,4 +640,49 @@ def rule_RK(run: Run) -> RuleResult:
             ok = bool(inspected & eq)
             res.add(f"labrea.option.Option.{op}:value-kind {k} inspected-for-templates", ok, opt.module.relpath, fn.lineno,
                     f"resolve() follows references inside {k}; Option.{op} inspects kinds {sorted(inspected)}", nec)
+    # path-sensitive part: in every helper that receives the value, a branch
+    # that recognises a kind must actually inspect it: strings through Template,
+    # containers by recursing into their elements (any nesting depth)
+    helpers = []
+    for op in ("keys", "explain"):
+        fn = opt.methods[op]
+        for x in astu.calls_in(fn):
+            if isinstance(x.func, ast.Attribute) and isinstance(x.func.value, ast.Name) and x.func.value.id in ("self", "cls", "Option"):
+                r = opt.find_method(x.func.attr)
+                if r and x.func.attr not in ("keys", "explain", "evaluate", "validate") and any(isinstance(a, ast.Name) for a in x.args):
+                    tfn = r[1]
+                    if any(astu.short_name(c) == "isinstance" for c in astu.calls_in(tfn)) and tfn not in helpers:
+                        helpers.append(tfn)
+    for tfn in helpers:
+        ctx = Ctx(run.repo)
+        from .interp import Frame, Path as IPath, SELF
+        fr = Frame(ctx, opt.module, opt, None, None, 0, (), f"Option.{tfn.name}")
+        names = [a.arg for a in tfn.args.posonlyargs + tfn.args.args]
+        env = {n_: Sym(n_) for n_ in names}
+        ctx.call_stack = [id(tfn)]
+        paths = fr.run_function(tfn, env, IPath())
+        bad = []
+        n_branches = 0
+        for p in paths:
+            if p.status != "ret":
+                continue
+            kinds_true = []
+            for c in p.conds:
+                if c[0].startswith("isinstance(") and c[1] is True:
+                    kinds_true.append(c[0][len("isinstance("):-1].split(",", 1)[1].strip())
+            if not kinds_true:
+                continue
+            n_branches += 1
+            evs = [e for e in p.events if e.kind in ("op", "call")]
+            recursed = any(e.kind == "call" and e.text.endswith("<recursive>") for e in evs)
+            templated = any(("Template" in (e.target.key() if e.target is not None else "")) or e.text in ("getattr",) or "Template" in e.text for e in evs)
+            for k in kinds_true:
+                kk = k.split(".")[-1]
+                if kk == "str" and not (templated or recursed):
+                    bad.append(f"a str value is recognised but not inspected through Template (returns {p.ret.key()[:40]})")
+                if kk in ("Mapping", "dict", "list", "Sequence", "MutableMapping") and not recursed:
+                    bad.append(f"a {kk} value is recognised but its elements are not inspected recursively (returns {p.ret.key()[:50]}): "
+                               "templates nested deeper, or inside this kind at all, are missed")
+        res.add(f"labrea.option.Option.{tfn.name}:every recognised kind is inspected (containers recursively)", not bad and n_branches >= 2, opt.module.relpath, tfn.lineno,
+                f"{n_branches} kind branches, all inspect their value" if not bad else bad[0], nec)
     return res
